@@ -141,7 +141,8 @@ def run_history(case):
                 raise RuntimeError("bad op " + op)
         except tuple(ERRS) as e:
             outs.append({"err": ERRS[type(e)]})
-            dead.add(i)
+            if op in ("gauss", "gausses") or type(e) not in (ValueError, IndexError):
+                dead.add(i)     # a generator that raised is finished; documented rejections leave the stream usable
     return outs
 
 
